@@ -403,36 +403,13 @@ func (h *meRun) step() {
 		h.check(fmt.Sprintf("late#%d", t.seq), prev, true, len(h.lateQ) == 0 && len(clk.due(clk.now)) == 0)
 		return
 	}
-	prev := h.me.Current()
 	switch x := rng.Intn(10); {
 	case x < 4:
 		e := meNames[rng.Intn(len(meNames))]
 		if rng.Intn(12) == 0 {
 			e = "unknown-endpoint"
 		}
-		av := rng.Intn(2) == 0
-		h.say("avail %s %v", e, av)
-		h.me.SetEndpointAvailability(e, av)
-		if s, ok := m.st[e]; ok {
-			if av {
-				if s.status == meR {
-					h.hit("C14.avail-in-window")
-				}
-				s.status = meA
-			} else if s.status == meA {
-				if m.r == 0 {
-					s.status = meU
-				} else {
-					s.status = meR
-					s.until = clk.now.Add(m.r)
-				}
-			} else if s.status == meR {
-				h.hit("C14.repeat-unavail-in-window")
-			}
-		} else {
-			h.hit("C13.unknown-endpoint-report")
-		}
-		h.check(fmt.Sprintf("avail(%s,%v)", e, av), prev, false, len(h.lateQ) == 0 && len(clk.due(clk.now)) == 0)
+		h.opAvail(e, rng.Intn(2) == 0)
 	case x < 6:
 		kk := rng.Intn(len(meNames) + 1)
 		if kk == 0 && rng.Intn(2) == 0 {
@@ -450,46 +427,7 @@ func (h *meRun) step() {
 		for _, p := range perm[:kk] {
 			l = append(l, meNames[p])
 		}
-		h.say("set %v", l)
-		err := h.me.SetEndpoints(l)
-		if len(l) == 0 {
-			h.hit("C13.empty-rejected")
-			if err == nil {
-				h.fail("C13.empty-rejected", "", "SetEndpoints(empty) was accepted")
-				return
-			}
-			if h.me.Current() != prev {
-				h.fail("C13.empty-nochange", "", "rejected empty list changed Current() %s->%s", prev, h.me.Current())
-			}
-			return
-		}
-		if err != nil {
-			h.fail("C13.set-error", "", "SetEndpoints(%v): %v", l, err)
-			return
-		}
-		ns := map[string]*meSt{}
-		for _, e := range l {
-			if s, ok := m.st[e]; ok {
-				ns[e] = s
-			} else {
-				ns[e] = m.newSt(clk.now)
-			}
-		}
-		if m.prio(prev) >= 0 {
-			found := false
-			for _, e := range l {
-				if e == prev {
-					found = true
-				}
-			}
-			if !found {
-				h.hit("C13.current-removed")
-			}
-		}
-		m.st = ns
-		m.list = l
-		h.hit("C13.set-endpoints")
-		h.check(fmt.Sprintf("set%v", l), prev, false, len(h.lateQ) == 0 && len(clk.due(clk.now)) == 0)
+		h.opSet(l)
 	default:
 		choices := []time.Duration{1, m.r / 2, m.r, m.d, m.r + m.d, m.d / 2, 1000, m.r - 1, m.d - 1}
 		dt := choices[rng.Intn(len(choices))]
@@ -499,6 +437,249 @@ func (h *meRun) step() {
 		h.say("advance %v", dt)
 		h.advance(dt)
 	}
+}
+
+func (h *meRun) opAvail(e string, av bool) {
+	clk, m := h.clk, h.m
+	prev := h.me.Current()
+	h.say("avail %s %v", e, av)
+	h.me.SetEndpointAvailability(e, av)
+	if s, ok := m.st[e]; ok {
+		if av {
+			if s.status == meR {
+				h.hit("C14.avail-in-window")
+			}
+			s.status = meA
+		} else if s.status == meA {
+			if m.r == 0 {
+				s.status = meU
+			} else {
+				s.status = meR
+				s.until = clk.now.Add(m.r)
+			}
+		} else if s.status == meR {
+			h.hit("C14.repeat-unavail-in-window")
+		}
+	} else {
+		h.hit("C13.unknown-endpoint-report")
+	}
+	h.check(fmt.Sprintf("avail(%s,%v)", e, av), prev, false, len(h.lateQ) == 0 && len(clk.due(clk.now)) == 0)
+}
+
+func (h *meRun) opSet(l []string) {
+	clk, m := h.clk, h.m
+	prev := h.me.Current()
+	h.say("set %v", l)
+	err := h.me.SetEndpoints(l)
+	if len(l) == 0 {
+		h.hit("C13.empty-rejected")
+		if err == nil {
+			h.fail("C13.empty-rejected", "", "SetEndpoints(empty) was accepted")
+			return
+		}
+		if h.me.Current() != prev {
+			h.fail("C13.empty-nochange", "", "rejected empty list changed Current() %s->%s", prev, h.me.Current())
+		}
+		return
+	}
+	if err != nil {
+		h.fail("C13.set-error", "", "SetEndpoints(%v): %v", l, err)
+		return
+	}
+	ns := map[string]*meSt{}
+	for _, e := range l {
+		if s, ok := m.st[e]; ok {
+			ns[e] = s
+		} else {
+			ns[e] = m.newSt(clk.now)
+		}
+	}
+	if m.prio(prev) >= 0 {
+		found := false
+		for _, e := range l {
+			if e == prev {
+				found = true
+			}
+		}
+		if !found {
+			h.hit("C13.current-removed")
+		}
+	}
+	m.st = ns
+	m.list = l
+	h.hit("C13.set-endpoints")
+	h.check(fmt.Sprintf("set%v", l), prev, false, len(h.lateQ) == 0 && len(clk.due(clk.now)) == 0)
+}
+
+// ---------------------------------------------------------------- bounded-exhaustive scripts
+
+type meOp struct {
+	kind string // avail | set | adv
+	e    string
+	av   bool
+	l    []string
+	dt   time.Duration
+}
+
+func (o meOp) String() string {
+	switch o.kind {
+	case "avail":
+		return fmt.Sprintf("avail(%s,%v)", o.e, o.av)
+	case "set":
+		return fmt.Sprintf("set%v", o.l)
+	}
+	return fmt.Sprintf("adv(%v)", o.dt)
+}
+
+// meAlphabet: operations over 3 endpoints for configuration (r,d).
+func meAlphabet(r, d time.Duration) []meOp {
+	var al []meOp
+	for _, e := range []string{"A", "B", "C"} {
+		al = append(al, meOp{kind: "avail", e: e, av: true}, meOp{kind: "avail", e: e, av: false})
+	}
+	for _, l := range [][]string{{"A", "B", "C"}, {"C", "B", "A"}, {"B", "A"}, {"C"}, {"B", "C", "A"}, {"A", "C"}} {
+		al = append(al, meOp{kind: "set", l: l})
+	}
+	dts := map[time.Duration]bool{1: true}
+	for _, x := range []time.Duration{r / 2, r, d, r + d} {
+		if x > 0 {
+			dts[x] = true
+		}
+	}
+	var ds []time.Duration
+	for x := range dts {
+		ds = append(ds, x)
+	}
+	sort.Slice(ds, func(i, j int) bool { return ds[i] < ds[j] })
+	for _, x := range ds {
+		al = append(al, meOp{kind: "adv", dt: x})
+	}
+	return al
+}
+
+// meRunScript executes one fixed op sequence (timers in creation order, no late callbacks).
+func meRunScript(r, d time.Duration, init []string, ops []meOp, idx int64) *meRun {
+	clk := &meClock{now: meEpoch}
+	clk.install()
+	h := &meRun{rng: &vRand{s: 1}, clk: clk, hits: map[string]int64{}, idx: idx}
+	me, err := NewMultiEndpoint(&MultiEndpointOptions{Endpoints: init, RecoveryTimeout: r, SwitchingDelay: d})
+	if err != nil {
+		h.fail("C13.init", "", "NewMultiEndpoint(%v): %v", init, err)
+		return h
+	}
+	h.me = me
+	h.m = &meModel{list: append([]string{}, init...), st: map[string]*meSt{}, cur: init[0], r: r, d: d}
+	for _, e := range init {
+		h.m.st[e] = h.m.newSt(clk.now)
+	}
+	h.say("init %v recovery=%v delay=%v (scripted)", init, r, d)
+	for _, o := range ops {
+		if h.viol != nil {
+			return h
+		}
+		clk.now = clk.now.Add(time.Nanosecond)
+		switch o.kind {
+		case "avail":
+			h.opAvail(o.e, o.av)
+		case "set":
+			h.opSet(o.l)
+		default:
+			h.say("advance %v", o.dt)
+			h.advance(o.dt)
+		}
+	}
+	if h.viol != nil {
+		return h
+	}
+	for guard := 0; clk.pending() > 0 && guard < 1000 && h.viol == nil; guard++ {
+		h.advance(r + d + 1000)
+	}
+	if h.viol != nil {
+		return h
+	}
+	h.m.expire(clk.now)
+	got := h.me.Current()
+	if ta := h.m.topA(); ta != "" {
+		h.hit("C14.convergence")
+		if got != ta {
+			h.fail("C14.convergence", h.cfgClass(), "inputs stopped and all timers fired: Current()=%s but the highest-priority available endpoint is %s", got, ta)
+		}
+	}
+	return h
+}
+
+// TestVerifMEExhaustive enumerates every op sequence up to the tier's depth over
+// the alphabet, for each (recovery, delay) configuration.
+func TestVerifMEExhaustive(t *testing.T) {
+	env := vGetEnv()
+	if env.Prop == "" {
+		t.Skip("VERIF_PROP not set")
+	}
+	out := vNewOut(env, "mesim-exhaustive")
+	depth := 3
+	if env.Tier == "thorough" {
+		depth = 5
+	}
+	cfgs := [][2]time.Duration{{0, 0}, {20, 0}, {0, 40}, {20, 40}, {40, 20}, {30, 30}}
+	var total int64
+	caseNo := int64(0)
+	for ci, cfg := range cfgs {
+		r, d := cfg[0]*time.Millisecond, cfg[1]*time.Millisecond
+		al := meAlphabet(r, d)
+		n := len(al)
+		// sequences of exactly `depth` ops (shorter ones are their prefixes: every
+		// rule is evaluated after every step)
+		count := int64(1)
+		for i := 0; i < depth; i++ {
+			count *= int64(n)
+		}
+		for code := int64(0); code < count; code++ {
+			caseNo++
+			if env.Replay >= 0 {
+				if caseNo-1 != env.Replay {
+					continue
+				}
+			} else if (caseNo-1)%int64(env.Batches) != int64(env.Batch) {
+				continue
+			}
+			ops := make([]meOp, depth)
+			c := code
+			for i := depth - 1; i >= 0; i-- {
+				ops[i] = al[c%int64(n)]
+				c /= int64(n)
+			}
+			h := meRunScript(r, d, []string{"A", "B", "C"}, ops, caseNo-1)
+			total++
+			out.Evaluations++
+			for k, v := range h.hits {
+				out.hitN(k, v)
+			}
+			if total%997 == 0 || h.viol != nil {
+				out.nontrivial(vHashStrings(h.log))
+			}
+			if len(out.Samples) < 2 && code%7919 == 13 {
+				out.sample(map[string]interface{}{"config": ci, "ops": h.log})
+			}
+			if h.viol != nil {
+				v := *h.viol
+				v.Log = h.log
+				if strings.HasPrefix(v.Rule, env.Prop+".") {
+					out.violation(v)
+				} else {
+					out.addExtra("foreign:"+v.Sig, 1)
+				}
+				if env.Replay >= 0 {
+					t.Logf("REPLAY case %d: %s: %s\n  %s", caseNo-1, v.Sig, v.Detail, strings.Join(h.log, "\n  "))
+				}
+			} else if env.Replay >= 0 {
+				t.Logf("REPLAY case %d: no violation\n  %s", caseNo-1, strings.Join(h.log, "\n  "))
+			}
+		}
+	}
+	out.Extra["exhaustive_depth"] = int64(depth)
+	out.hitN("C13.exhaustive-sequences", total)
+	out.hitN("C14.exhaustive-sequences", total)
+	out.write(env.Out)
 }
 
 var meConfigs = [][2]time.Duration{{0, 0}, {20, 0}, {0, 40}, {20, 40}, {40, 20}, {30, 30}, {1, 1}, {1000, 3}}
